@@ -515,6 +515,11 @@ func (e *Engine) indexObligation(fr *frame, st *State, in ssa.Instruction, x, id
 	}
 	lo := st.Entails(i)
 	hi := st.Entails(n.Sub(i).AddConst(-1))
+	if !hi && fr.check && !n.Bad && !i.Bad && len(st.lc) > 0 {
+		// second chance: relate remainders computed at different places
+		st.SaturateCong()
+		hi = st.Entails(n.Sub(i).AddConst(-1))
+	}
 	if e.AccessHook != nil && fr.check {
 		e.AccessHook(e, st, in, x, i.AddConst(1))
 	}
